@@ -226,6 +226,12 @@ cfg["C29"] = {
     "outside": "pipes, per-target goroutines, engine failures, completion and the byte-identity of what the engine writes (I/O and concurrency in rpc.go / sendlarge.go); the empty file yields zero chunks, whether the receiving side then creates the file is not decided here",
     "assumptions": [common_stubs + "; abstract slices support len, cap and bounds-checked re-slicing only (the chunker never reads bytes)"],
 }
+cfg["C29"]["runs"].append({"dir": CAL, "inline_go": True, "quick": P("VerifSendLarge", "chunks=2,targets=2", "chunks=12,targets=1", "chunks=13,targets=2"), "thorough": P("VerifSendLarge", "chunks=2,targets=2", "chunks=12,targets=1", "chunks=13,targets=2", "chunks=13,targets=2,sched=lazy", "chunks=3,targets=2,choices=3", "chunks=24,targets=2"), "samples": 1})
+cfg["C29"]["title"] = "File transfers deliver identical content and always finish"
+cfg["C29"]["bounds"] += ". Cluster side (Calcium.SendLargeFile with its per-target senders, io.Pipe, copy goroutines and wait group, under the cooperative scheduler with exact channel semantics): one file of 2-24 chunks to 1-2 targets; every target's engine symbolically accepts (reads to the end), rejects before reading, or aborts after the first read; the second target may not exist; owner and mode symbolic. Every accepting target must hold byte-identical content with the requested owner, mode, size and path, there is exactly one result per target, and the call finishes (a block is a hang violation, replayed natively under the 20 s cap)"
+cfg["C29"]["outside"] = "the gRPC layer on top (rpc.go SendLargeFile: stream handling), several files in one call, more than two targets; what the engine itself writes (the Docker API); the empty file yields zero chunks, whether the receiving side then creates the file is not decided here"
+cfg["C29"]["assumptions"] = cfg["C29"]["assumptions"] + ledger_assume
+
 cfg["C36"] = {
     "title": "Client watch streams retry transparently", "design_ref": "DESIGN.md §4 C36",
     "runs": [{"dir": "client/interceptor", "quick": P("VerifStreamRetry", "max=1,recv=2,listed=1", "max=0,recv=2,listed=1", "max=1,recv=1,listed=0", "max=2,recv=1,listed=1,cancel=1"),
